@@ -485,6 +485,8 @@ def run_cases(ctx, cases):
         r["request"] = rq[1]
         if r["model"].get("err") == "Unmodelled":
             r["verdict"] = "unmodelled"
+        elif str(r["model"].get("err", "")).startswith("driver"):
+            r["verdict"] = "driver-failure"      # the model evaluator itself failed on this request: nothing was compared
         elif r["model"] == r["impl"] and r["cwd_ok"]:
             r["verdict"] = "agree"
         else:
@@ -600,6 +602,9 @@ def run(ctx):
     kn2, kok2, kdetail2 = core.kernel_sample(ctx, smodel, limit_chars=12000, max_cases=60)
     ctx.oblige("kernel-vs-extraction-sample-strings", kok2, kdetail2)
     mism = [r for r in recs if r["verdict"] == "MISMATCH"]
+    dfail = [r for r in recs if r["verdict"] == "driver-failure"]
+    ctx.oblige("model-evaluator-answered-every-request", len(dfail) * 50 <= len(recs),
+               "%d of %d requests got no answer from the extracted model" % (len(dfail), len(recs)))
     diverge = [r for r in recs if r["model"].get("err") == "Diverge"]
     for r in mism[:6]:
         ctx.violation(describe(r), {"case": r["case"], "impl": r["impl"], "model": r["model"], "cwd_ok": r["cwd_ok"],
